@@ -15,6 +15,48 @@ from .campaign import run_seed
 from .campaign import skeleton_hash
 
 
+def style_probes(sc):
+    """Which declaration / attachment styles the scenario's programs use (reach of the generator)."""
+    out = set()
+    for p in sc.get("programs") or []:
+        if p.get("any"):
+            out.add("probe.style.from_any")
+            if any(a.get("alias") for a in p["any"]):
+                out.add("probe.style.from_any_with_event_alias")
+        if p.get("event_decl"):
+            out.add("probe.style.standalone_Event_attribute")
+        if p.get("event_names"):
+            out.add("probe.style.Event_with_display_name")
+        for t in p.get("trans") or []:
+            if t.get("orgroup"):
+                out.add("probe.style.transitions_composed_with_or")
+            if t.get("devent"):
+                out.add("probe.style.decorator_declared_event")
+            if t.get("decl") == "from":
+                out.add("probe.style.from_")
+            if t.get("decl") == "itself":
+                out.add("probe.style.to_itself")
+            if t.get("assign_event"):
+                out.add("probe.style.Event_wrapping_transitions")
+            elif t.get("assign"):
+                out.add("probe.style.attribute_assignment")
+            if len(t.get("events") or []) > 1:
+                out.add("probe.style.multi_event_transition")
+            if t.get("internal"):
+                out.add("probe.style.internal_transition")
+            if any(not e.isidentifier() for e in list(t.get("cond", [])) + list(t.get("unless", []))):
+                out.add("probe.style.guard_expression")
+        for m in (p.get("cbs") or {}).values():
+            for key, name in (("prop", "property_guard"), ("awaitable", "plain_function_returning_awaitable"),
+                              ("wrapped", "decorated_callback"), ("partial", "functools_partial_callback"),
+                              ("async", "coroutine_callback")):
+                if m.get(key):
+                    out.add("probe.style." + name)
+            if m.get("style") in ("callable", "decorator"):
+                out.add("probe.style.callback_by_" + m["style"])
+    return sorted(out)
+
+
 def run_chunk(pid, tier, verif_seed, start, count, per_run_timeout=300):
     """Worker: runs indices [start, start+count).  Pure function of its arguments."""
     camp = campaign_mod.get(pid)
@@ -54,6 +96,8 @@ def run_chunk(pid, tier, verif_seed, start, count, per_run_timeout=300):
         for k, v in camp.counters(sc, ev).items():
             if v:
                 c[k] += v
+        for k in style_probes(sc):
+            c[k] += 1
         for u in ev.get("unarmed", []):
             out["unarmed"][u] += 1
         key = camp.nontrivial(sc, ev)
